@@ -712,7 +712,50 @@ pub struct GenCfg {
     pub raw_last: bool,
 }
 
+thread_local! {
+    /// Extra constants the generator mixes into selectors (C15: the compressor's built-in table).
+    static CONST_POOL: RefCell<Vec<Sc>> = const { RefCell::new(Vec::new()) };
+}
+
+pub fn set_const_pool(v: Vec<Sc>) {
+    CONST_POOL.with(|p| *p.borrow_mut() = v);
+}
+
+/// The compressor's built-in constant table (Hades round constants and MDS
+/// matrix), regenerated from its published recipe.
+pub fn hades_table() -> Vec<Sc> {
+    use sha2::{Digest, Sha512};
+    let mut out = Vec::new();
+    let mut p = Sc::one();
+    let mut bytes = b"poseidon-for-plonk".to_vec();
+    for _ in 0..(59 + 8) * 5 {
+        bytes = Sha512::digest(bytes.as_slice()).to_vec();
+        let mut v = [0u8; 64];
+        v.copy_from_slice(&bytes[0..64]);
+        let c = Sc::from_bytes_wide(&v) + p;
+        p = c;
+        out.push(c);
+    }
+    for i in 0..5u64 {
+        for j in 0..5u64 {
+            out.push(Option::<Sc>::from((Sc::from(i) + Sc::from(j + 5)).invert()).unwrap());
+        }
+    }
+    out
+}
+
 pub fn small_sel(rng: &mut Rng) -> Sc {
+    let pooled = CONST_POOL.with(|p| {
+        let p = p.borrow();
+        if !p.is_empty() && rng.chance(1, 5) {
+            Some(p[rng.usize(p.len())])
+        } else {
+            None
+        }
+    });
+    if let Some(c) = pooled {
+        return c;
+    }
     match rng.below(8) {
         0 => Sc::zero(),
         1 => Sc::one(),
